@@ -411,4 +411,8 @@ def run(chk):
     ]
     frame_obligations(chk)
     chk.section("to_hoomd_restores_the_shape", "coxeter.shapes.polygon::Polygon.to_hoomd", lambda: hoomd_restores(chk))
+    from .common import inherits
+    _sh = chk.loader().load("coxeter.shapes")
+    inherits(chk, _sh, "ConvexPolygon", "Polygon", ["to_hoomd"], "coxeter.shapes.polygon")
+    inherits(chk, _sh, "ConvexPolyhedron", "Polyhedron", ["to_hoomd"], "coxeter.shapes.polyhedron")
     run_bounded(chk)
